@@ -16,6 +16,7 @@ LANES = {
     "C19": [dict(REL)],
     "C15": [dict(REL), dict(DBG)],
     "C12": [dict(REL)],
+    "C10": [dict(REL), dict(DBG)],
 }
 
 LEVELS = {
